@@ -55,6 +55,7 @@ PINS = [
     'mesonbuild.mformat:FormatterConfig',
     'mesonbuild.mformat:run',
     'mesonbuild.utils.universal:pathname_sort_key',
+    'mesonbuild.mformat:TrimWhitespaces.sort_arguments',
     'mesonbuild.mparser:StringNode',
     'mesonbuild.mparser:decode_match',
     'mesonbuild.ast.printer:RawPrinter',
@@ -543,7 +544,7 @@ def simp_family(deep: bool) -> T.List[str]:
     # multi-line layout), grouping trigger, identifier
     stay = "'''it's'''" if "'" in trig['keep_triple'] or not trig['keep_triple'] else "'''a\nb'''"
     one = ["'a'", "'''b'''", "f'c'", stay, f"'{pre}o'", 'x']
-    two = [("'b'", "'a'"), (f"'{pre}o'", "'v'"), ("'a10'", "'a9'"), ("'a'", 'x')] + ([("'''b'''", "'a'")] if deep else [])
+    two = [("'b'", "'a'"), (f"'{pre}o'", "'v'"), ("'a10'", "'a9'"), ("'a'", 'x'), ("'main.c'", "'7zip.c'")] + ([("'''b'''", "'a'")] if deep else [])
     lists: T.List[T.List[str]] = [[]] + [[e] for e in one] + [list(p) for p in two]
 
     def render_list(items: T.List[str], trailing: bool, multi: bool, comment: bool) -> str:
@@ -1139,7 +1140,8 @@ def lay_program(rng: random.Random) -> str:
     """random statements of the layout model's domain with legal trivia: calls (files among them), method calls,
     arrays, dicts; 0-3 items; trailing commas; line breaks; comments after the opening bracket or after a leaf"""
     def leaf() -> str:
-        return rng.choice(["'a'", "'b'", "'a10'", "'a9'", 'x', '1', "'''c'''", "'''it's'''", "f'd'", "'--o'", "'v'", 'true'])
+        return rng.choice(["'a'", "'b'", "'a10'", "'a9'", 'x', '1', "'''c'''", "'''it's'''", "f'd'", "'--o'", "'v'", 'true', "'7zip.c'",
+                           "'3rd/z.c'", "'src/m.c'", "'A1'"])
 
     def gap() -> str:
         return rng.choice(['', ' ', ' ', '\n', '\n  ', '  '])
@@ -2124,11 +2126,15 @@ def _job(a: T.Tuple[str, T.List[T.Dict[str, T.Any]], str, T.Any]) -> T.List[T.Di
     else:
         items = payload
     for origin, text, ci in items:
-        r = run_pair(text, cfgdir, ci, cfgs[ci], want_ser=origin not in ('simp-shape', 'lay') or zlib.crc32(text.encode()) % 4 == 0,
-                     want_lay=origin in ('lay', 'shape', 'simp-shape', 'targeted'))
+        try:
+            r = run_pair(text, cfgdir, ci, cfgs[ci], want_ser=origin not in ('simp-shape', 'lay', 'sortnames') or zlib.crc32(text.encode()) % 4 == 0,
+                         want_lay=origin in ('lay', 'shape', 'simp-shape', 'targeted', 'sortnames'))
+        except Exception as e:   # adapter failure (shape of the implementation changed): an outcome, not a crash
+            out.append({'text': text, 'cfgid': ci, 'status': 'adapter-error:' + type(e).__name__, 'viol': [], 'origin': origin})
+            continue
         r['origin'] = origin
         crc = zlib.crc32(text.encode('utf-8', 'surrogatepass'))
-        if r['status'] == 'ok' and '\r' not in r['out'] and (origin not in ('gen', 'shape', 'simp-shape', 'lay') or crc % (32 if origin in ('simp-shape', 'lay') else 8) == 0):
+        if r['status'] == 'ok' and '\r' not in r['out'] and (origin not in ('gen', 'shape', 'simp-shape', 'lay', 'sortnames') or crc % (32 if origin in ('simp-shape', 'lay', 'sortnames') else 8) == 0):
             eol = cfgs[ci]['end_of_line']
             r['viol'] += check_cli(text, cfgdir, ci, r['out'], eol, FILE_NEWLINES[(crc // 8 + ci) % 3])
             r['cli'] = True
@@ -2144,6 +2150,22 @@ def _job(a: T.Tuple[str, T.List[T.Dict[str, T.Any]], str, T.Any]) -> T.List[T.Di
 
 def nondefault(cfg: T.Dict[str, T.Any]) -> T.Dict[str, T.Any]:
     return {k: v for k, v in cfg.items() if v != DEFAULT_CFG[k]}
+
+
+# names for the sort key: digit-leading against letter-leading components, numbers of different lengths and with
+# leading zeros, case, separators (leading / trailing / doubled), digits next to punctuation, empty name
+SORT_NAMES = ['main.c', '7zip.c', 'src/main.c', '3rdparty/zlib/inflate.c', 'a10', 'a9', 'a010', 'A1', 'a1', 'a', 'A', '1', '01', '10',
+              '1a', '1A', 'a1b2', 'a1b10', 'x/1', 'x/a', '1/x', 'a/1/b', 'a//b', '/a', 'a/', '', '10/2', '2/10', 'a.1', 'a-1', '1.5', '1_5',
+              'B/a', 'b/A', '9z/9', 'z9/z', '12ab34', '12AB034', '0', '00', 'é1', '1é']
+
+
+def compare_keys(a: str, b: str) -> str:
+    """outcome of `pathname_sort_key(a) < pathname_sort_key(b)` on the implementation: lt / ge / ERR:<exception type>"""
+    try:
+        from mesonbuild.mesonlib import pathname_sort_key
+        return 'lt' if pathname_sort_key(a) < pathname_sort_key(b) else 'ge'
+    except Exception as e:
+        return 'ERR:' + type(e).__name__
 
 
 def decision_cases(rng: random.Random, n: int) -> T.Tuple[T.List[T.Tuple[str, bool, bool, bool]], T.List[T.List[str]], T.List[str]]:
@@ -2170,7 +2192,7 @@ def decision_cases(rng: random.Random, n: int) -> T.Tuple[T.List[T.Tuple[str, bo
                 raw += 'z'
         strs.append((raw, multi, rng.random() < 0.4, rng.random() < 0.9))
     lists = []
-    pool = WORDS + ['a/b', 'a/B/c', 'a/b/c10', 'a/b/c9', 'x/', '/x', 'a//b', '10', '9', '09', '1/2', 'a1b2', 'a1b10', 'A', 'é', 'dir/a.c', 'dir2/a.c', 'dir10/a.c']
+    pool = WORDS + SORT_NAMES + ['a/b', 'a/B/c', 'a/b/c10', 'a/b/c9', 'x/', '/x', 'a//b', '10', '9', '09', '1/2', 'a1b2', 'a1b10', 'A', 'é', 'dir/a.c', 'dir2/a.c', 'dir10/a.c']
     for _ in range(n // 4):
         lists.append([rng.choice(pool) if rng.random() < 0.8 else ''.join(rng.choice('aB1/0_. 9') for _ in range(rng.randint(0, 6)))
                       for _ in range(rng.randint(0, 7))])
@@ -2210,16 +2232,44 @@ def check_decisions(ctx: Ctx) -> None:
         expect.append(f'{enc(node0.value)};{int(bool(f and FSUB.search(node0.value)))};{int(lex_ok)}')
         inputs.append(('den', raw, multi, f))
         ctx.tag('decision:string:' + ('multi' if multi else 'plain') + (':f' if f else ''))
-    from mesonbuild.mesonlib import pathname_sort_key
+    try:
+        from mesonbuild.mesonlib import pathname_sort_key
+    except Exception as e:
+        pathname_sort_key = None
+        ctx.obligation_failed('sort-key', f'mesonlib.pathname_sort_key cannot be imported: {type(e).__name__}')
     for l in lists:
+        if pathname_sort_key is None:
+            break
+        try:
+            s1 = sorted(l, key=pathname_sort_key)
+        except Exception as e:   # the key of sort_files must compare for every pair of names
+            bad = next(([a, b] for a in l for b in l if compare_keys(a, b).startswith('ERR')), l)
+            ctx.violation('sort:key-comparison-raises:' + type(e).__name__,
+                          f'sorted(names, key=pathname_sort_key) raised {type(e).__name__} (what sort_files does to the arguments of files())',
+                          {'names': bad, 'text': 'files(' + ', '.join("'" + x + "'" for x in bad) + ')\n', 'cfg': {'sort_files': True}})
+            continue
         lines.append(f'sort {enc_list(l)}')
-        expect.append(enc_list(sorted(l, key=pathname_sort_key)))
+        expect.append(enc_list(s1))
         inputs.append(('sort', l))
         ctx.tag('decision:sort')
         # the property's own requirement on the implementation's order: a stable permutation
-        s1 = sorted(l, key=pathname_sort_key)
         if sorted(s1) != sorted(l) or sorted(s1, key=pathname_sort_key) != s1:
             ctx.violation('sort:not-a-stable-permutation', 'sorted(key=pathname_sort_key) is not an idempotent permutation', {'list': l})
+    # the key itself: every ordered pair of hostile names, and random pairs of pieces
+    pairs = [(a, b) for a in SORT_NAMES for b in SORT_NAMES]
+    for _ in range(ctx.scale(1500, 15000)):
+        a, b = (''.join(rng.choice(['a', 'B', '1', '0', '9', '/', '.', '10', 'z', '_']) for _ in range(rng.randint(0, 6))) for _ in range(2))
+        pairs.append((a, b))
+    for a, b in pairs:
+        out = compare_keys(a, b)
+        lines.append(f'pkey {enc(a)}|{enc(b)}')
+        expect.append(out)
+        inputs.append(('pkey', a, b))
+        ctx.tag('decision:sort-key:' + out)
+        if out.startswith('ERR'):
+            ctx.violation('sort:key-comparison-raises:' + out[4:],
+                          f'pathname_sort_key({a!r}) < pathname_sort_key({b!r}) raised {out[4:]}: meson format with sort_files dies on files({a!r}, {b!r})',
+                          {'names': [a, b], 'text': f"files('{a}', '{b}')\n", 'cfg': {'sort_files': True}})
     for text in flats:
         try:
             tree = parse(text)
@@ -2298,6 +2348,15 @@ def build_cases(ctx: Ctx, cfgs: T.List[T.Dict[str, T.Any]], cfgdir: str) -> T.Li
             items.append(('simp-shape', sh, ci))
     for i in range(0, len(items), 600):
         jobs.append((cfgdir, cfgs, 'texts', items[i:i + 600]))
+    # files() over every ordered pair of hostile names, sorted: no internal error escapes the formatter
+    sort_ci = next((i for i, c in enumerate(cfgs) if nondefault(c) == {'sort_files': True}), None)
+    if sort_ci is not None:
+        names = [n for n in SORT_NAMES if all(ord(ch) < 128 for ch in n)]
+        names = names if ctx.deep else names[:16]
+        items = [('sortnames', f"files('{a}', '{b}')\n" if (i + j) % 2 else f"x = files(['{a}', '{b}', y])\n", sort_ci)
+                 for i, a in enumerate(names) for j, b in enumerate(names)]
+        for i in range(0, len(items), 300):
+            jobs.append((cfgdir, cfgs, 'texts', items[i:i + 300]))
     # statements of the Lean layout model's domain x every combination of the options it reads
     nlay = ctx.scale(3000, 30000)
     for _ in range(nlay // 250):
@@ -2384,6 +2443,9 @@ def run(ctx: Ctx) -> None:
         '(status input-degenerate, counted); minimisation stays inside the domain',
         'f-string denotation taken from InterpreterBase.evaluate_fstring: substitution sites are matches of @ident@',
         'nesting depth of generated programs <= 7 (RecursionError is a runtime limit)',
+        'sort key: file names are ASCII plus inert letters; a non-ASCII character for which str.isdigit() holds is outside the model of '
+        'pathname_sort_key (observed on the unchanged code: pathname_sort_key("\u00b2") raises ValueError, a whole-component "\u0663" becomes an '
+        'int at a text position) and is not generated',
     ]
     for f in os.listdir(ctx.workdir):   # replay files of earlier runs (possibly against another tree) are stale
         if f.startswith('replay-') and f.endswith('.json'):
@@ -2391,7 +2453,10 @@ def run(ctx: Ctx) -> None:
                 os.unlink(os.path.join(ctx.workdir, f))
             except OSError:
                 pass
-    check_decisions(ctx)
+    try:
+        check_decisions(ctx)
+    except Exception as e:   # an exception of the implementation inside a probe is an outcome, never a crash
+        ctx.obligation_failed('decisions', f'{type(e).__name__} while probing the rewriting decisions: {str(e)[:200]}')
     cfgdir = common.scratch_dir('mverif-c16cfg-')
     try:
         cfgs = pairwise_configs(rng, ctx.scale(6, 300))
@@ -2442,6 +2507,7 @@ def process(ctx: Ctx, results: T.List[T.Dict[str, T.Any]], cfgs: T.List[T.Dict[s
     meta: T.List[T.Tuple[str, T.Dict[str, T.Any]]] = []
     unknown: T.Dict[str, T.List[T.Tuple[str, int, str]]] = {}
     programs = 0
+    adapter_reported: T.List[int] = []
     for r in results:
         ctx.count()
         ctx.tag('status:' + r['status'])
@@ -2452,6 +2518,11 @@ def process(ctx: Ctx, results: T.List[T.Dict[str, T.Any]], cfgs: T.List[T.Dict[s
             ctx.tag(f'source:{r["scenario"]["field"]}:{r["scenario"]["source"]}:{r["scenario"]["activation"]}')
         else:
             cfg = cfgs[r['cfgid']]
+        if r['status'].startswith('adapter-error'):
+            if not adapter_reported:
+                adapter_reported.append(1)
+                ctx.obligation_failed('adapter', f'{r["status"]} on {r["text"][:120]!r}')
+            continue
         if r['status'] in ('input-unparseable', 'input-degenerate', 'recursion', 'config-rejected') or r['status'].startswith('input-parser-error'):
             continue
         programs += 1
@@ -2594,6 +2665,8 @@ def search(ctx: Ctx, disagreements: T.List[dict]) -> None:
                     texts.append('files([' + ', '.join("'" + s.replace('\\', '').replace("'", '') + "'" for s in inp[1]) + '])\n')
                 elif inp[0] == 'flat':
                     texts.append(inp[1] + '\n')
+                elif inp[0] == 'pkey' and "'" not in inp[1] + inp[2] and '\\' not in inp[1] + inp[2]:
+                    texts += [f"files('{inp[1]}', '{inp[2]}')\n", f"files(['{inp[2]}', '{inp[1]}'])\n"]
             elif d.get('text'):
                 texts.append(d['text'])
                 if d.get('kind') == 'layout':   # each statement alone, and nested in the contexts the passes distinguish
